@@ -713,6 +713,11 @@ func TestVerifX05MirrorReplay(t *testing.T) {
 			if !x05Await(func() bool { return mirrorAlive() == 0 }) {
 				fail("leak", "a mirror goroutine is alive at the end of the behaviour")
 			}
+			n := 0
+			scn.get(func() { n = scn.arrived["mirror"] })
+			if n > 0 && !vx.Bool(beh[len(beh)-1]["obs"].(vx.M)["spawned"]) {
+				fail("spawn", "%d mirror call(s) for a request the mirror filter does not match", n)
+			}
 		}
 		// observed class of the run (vacuity accounting on the python side)
 		var mirOut, mirRecv = "", 0
